@@ -12,7 +12,7 @@ KSRC = os.path.join(VERIF, 'kani')
 KWORK = os.path.join(VERIF, '.work', 'kani' if X.REPO == '/repo' else 'kani_alt')
 
 HARNESS_RE = re.compile(r'^(?:\w+_harness|harness)!\(\s*(\w+)\s*,', re.M)
-MISC_RE = re.compile(r'^(?:\w+!\(|pub fn )(misc_\w+)', re.M)
+MISC_RE = re.compile(r'^(?:\w+!\(|pub fn )((?:misc|ctr_seekpast)_\w+)', re.M)
 PLAIN_RE = re.compile(r'#\[cfg_attr\(kani, kani::proof\)\][^\n]*\n(?:\s*#\[[^\n]*\n)*\s*pub fn (\w+)\s*\(', re.M)
 
 
